@@ -106,9 +106,22 @@ func sanitizeInterfaceInlineFragment(ctx *PlanningContext, selectionSet ast.Sele
 		return ast.SelectionSet{selection}
 	}
 
+	// a fragment on another abstract type applies only to the possible types both of them have
+	var conditionTypes []*ast.Definition
+	if t := ctx.Schema.Types[selection.TypeCondition]; t != nil && (t.Kind == ast.Interface || t.Kind == ast.Union) && t.Name != selection.ObjectDefinition.Name {
+		conditionTypes = ctx.Schema.PossibleTypes[t.Name]
+	}
+
 	// every possible type gets the fields of the fragment, not the fragments made for the types before it
 	fragmentSelectionSet := selectionSet
+	if conditionTypes != nil {
+		// the fields are selected for those types only, not for every object of the interface
+		selectionSet = nil
+	}
 	for _, pt := range possibleTypes {
+		if conditionTypes != nil && !lo.ContainsBy(conditionTypes, func(d *ast.Definition) bool { return d.Name == pt.Name }) {
+			continue
+		}
 		inlineFragment := &ast.InlineFragment{
 			TypeCondition:    pt.Name,
 			Directives:       selection.Directives,
